@@ -19,7 +19,7 @@ from datetime import datetime, timedelta, UTC
 from ..utils import timestamp
 from ..encoding import Component, Name, ModelField, TlvModel, ContentType, BytesField, \
     SignatureInfo, TypeNumber, RepeatedField, IncludeBase, MetaInfo, VarBinaryStr, \
-    get_tl_num_size, write_tl_num, parse_and_check_tl, FormalName
+    get_tl_num_size, write_tl_num, parse_and_check_tl, FormalName, DecodeError
 from ..encoding.ndn_format_0_3 import DataPacketValue
 
 
@@ -80,7 +80,10 @@ class SafeBag(TlvModel):
 
 def parse_certificate(wire) -> CertificateV2Value:
     wire = parse_and_check_tl(wire, TypeNumber.DATA)
-    return CertificateV2Value.parse(wire)
+    ret = CertificateV2Value.parse(wire)
+    if ret.__dict__.get('name') is None:
+        raise DecodeError('the Name of the certificate is missing')
+    return ret
 
 
 def new_cert(key_name, issuer_id_component, pub_key, signer, start_time, end_time) -> tuple[FormalName, VarBinaryStr]:
